@@ -125,6 +125,28 @@ def build() -> Check:
             for g, _ in e.guards:
                 foreign = sorted(".".join(gr) for gr in all_self_roots(g)
                                  if not any(vr[:len(gr)] == gr for vr in vroots))
+                # ... and the right way round: a key is withheld only when the value is ABSENT (None / falsy) - the reader answers absence with its default,
+                # which is None / False / empty. A guard that withholds the key when the value is PRESENT loses it (mutscan: `if x.replay_children` negated)
+                own_ok = True
+                if not foreign and all_self_roots(e.value):
+                    # (an alternative that writes a constant - `x.to_dict() if x else None`, `{}` for a details object without fields - carries no value)
+                    t_ = g
+                    pos = _
+                    # accepted positive forms: `v`, `v is not None`, conjunctions of those over the value and the objects it is reached through
+                    def positive(e_):
+                        if isinstance(e_, ast.BoolOp) and isinstance(e_.op, ast.And):
+                            return all(positive(v_) for v_ in e_.values)
+                        if isinstance(e_, (ast.Attribute, ast.Name)):
+                            return True
+                        if isinstance(e_, ast.Compare) and len(e_.ops) == 1 and isinstance(e_.ops[0], ast.IsNot) and isinstance(e_.comparators[0], ast.Constant) and e_.comparators[0].value is None:
+                            return True
+                        if isinstance(e_, ast.NamedExpr):
+                            return True
+                        return False
+                    own_ok = bool(pos) and positive(t_)
+                    ck.ob("R3.emission-guard-withholds-absent-values-only", construct, own_ok,
+                          f"{c.name} writes {'.'.join(e.path)!r} under `{ast.unparse(g)}` (taken {'positively' if pos else 'NEGATED'}): the key is withheld for a value that is present "
+                          "and the reader fills in its default", cell=".".join(e.path) + " if " + ast.unparse(g))
                 ck.ob("R3.emission-guard-looks-at-the-emitted-value-only", construct, not foreign,
                       f"{c.name} writes {'.'.join(e.path)!r} (= {e.value_txt}) only when `{ast.unparse(g)}`: the guard reads self.{', self.'.join(foreign)}, which is not the value "
                       f"written nor an object it is reached through; for a value of that other field the key is withheld and the reader fills in its default - the round trip changes the field",
